@@ -9,3 +9,11 @@ def hit(*a, **k):
 
 class K(vp_sink.K):
     pass
+
+
+class Namespace:
+    """Same name and length as argparse.Namespace: byte-for-byte twin pickles that differ in the module only."""
+
+    def __setstate__(self, state):
+        vp_sink.LOG.append(("twin-ran", len(state)))
+        self.__dict__.update(state)
